@@ -182,6 +182,10 @@ def run(ctx):
                 (v[2] == ("field", selfp, "input_pos") and M.noref(M.strip(v[3])) == M.noref(wcall)) or (v[3] == ("field", selfp, "input_pos") and M.noref(M.strip(v[2])) == M.noref(wcall)))
             ok = ok and dominated_by_edges(ri, st[0][0], try_ok_edges(ri, T, lambda c: c[3] == bb))
         ctx.ob("R02.3", "input_pos+=n", ok, ri.loc(st[0][0] if st else bb), "the cursor must advance by exactly what this write() accepted (a partial write must not lose or repeat bytes)")
+        ok_e_ = try_ok_edges(ri, T, lambda c: c[3] == bb)
+        st_b = [x_[0] for x_ in st]
+        okp = bool(ok_e_) and bool(st_b) and all(dominated_by_blocks(ri, r_, st_b, start=ok_e_[0][1]) for r_ in ri.return_blocks() if r_ in ri.reachable(ok_e_[0][1]))
+        ctx.ob("R02.3", "cursor-persisted-before-any-return", okp, ri.loc(bb), "what write() accepted is recorded in self.input_pos before any return (also the error returns), so a resumed read never sends a byte twice")
     # ---- R02.4 stdin closed when and only when done (shared with R01.4) ---------------------------------
     takes = [(bb, t) for bb, t in ri.calls() if M.callee_str(t["f"]) == "std::option::Option::<T>::take" and M.noref(T.operand(t["args"][0])) == ("field", selfp, "stdin")]
     other_close = [(b, si) for (b, si, s) in stores_to_field(ri, "stdin", "communicate::raw::RawCommunicator")]
